@@ -14,6 +14,13 @@ Seeds ==
           THEN {[c |-> 1, sv |-> [McReqMin EXCEPT !.pubKeyCredParams = <<ParamOf(ALG_ES256), ParamOf(ALG_EdDSA), ParamOf(-257), ParamOf(ALG_ES256)>>,
                                                  !.options = <<AuthOptsFull>>,
                                                  !.attestationFormatsPreference = <<<<N_packed, N_none, N_tpm, N_packed>>>>]],
+                \* entries that will be FILTERED OUT (another type, another algorithm) are still entries:
+                \* a fault inside one of them is a fault of the request
+                [c |-> 1, sv |-> [McReqMin EXCEPT !.pubKeyCredParams = <<[alg |-> ALG_ES256, type |-> <<111, 116, 104, 101, 114>>], ParamOf(ALG_EdDSA),
+                                                                         [alg |-> -257, type |-> N_tpm], ParamOf(ALG_ES256)>>,
+                                                 !.options = <<AuthOptsFull>>,
+                                                 !.attestationFormatsPreference = <<<<N_tpm, N_packed>>>>]],
+                [c |-> 2, sv |-> [GaReqMin EXCEPT !.allowList = <<<<[id |-> Pattern(3, 16), type |-> <<111, 116, 104, 101, 114>>], GDesc(2)>>>>]],
                 [c |-> 2, sv |-> [GaReqMin EXCEPT !.allowList = <<<<GDesc(1), GDesc(2), GDesc(3)>>>>,
                                                  !.attestationFormatsPreference = <<<<N_none, N_packed, N_tpm>>>>]]}
           ELSE {})
